@@ -30,7 +30,7 @@ GenerateBegin(impl) ==
     /\ pc' = "run" /\ cur' = impl
     /\ encoding' = <<>> /\ bitstart' = 0            \* the reset
     /\ work' = Children(sch, RootItem(impl), unroll, TRUE)
-    /\ calls' = Append(calls, impl.name)
+    /\ calls' = Append(calls, IF impl.protocol = "can" THEN impl.name ELSE impl.name \o "@" \o impl.protocol)   \* bindings of other protocols may share a name
     /\ UNCHANGED <<sch, unroll, rets>>
 
 VisitStruct ==
